@@ -1,6 +1,7 @@
 //! Shared pieces of the implementation-side correspondence harness.
 //! One binary per property lives in src/bin/cXX.rs and calls `run_cases(run)`.
 pub mod sexp;
+pub mod bbi;
 pub use sexp::{a, S};
 
 use std::io::{BufRead, Write};
